@@ -68,7 +68,11 @@ type c21Case struct {
 
 // c21World is everything the tasks share, rebuilt identically from the seed.
 type c21World struct {
-	p      *corpus.Pkg
+	p *corpus.Pkg
+	// schema is unzipped afresh for every world, so that the concurrent phase meets a
+	// schema nobody has touched yet (lazily filled caches on schema entries would otherwise
+	// be warmed by the solo phase or by earlier runs of the process)
+	schema *ytypes.Schema
 	sch    *yang.Entry
 	T, T2  ygot.GoStruct // shared, read-only for the tasks
 	leaves []*model.Leaf // leaves of T (for getnode / encode targets)
@@ -164,8 +168,9 @@ func short(b []byte) string {
 
 func buildWorld(c *c21Case) *c21World {
 	w := &c21World{p: corpus.Get(c.Pkg)}
-	w.sch = w.p.Schema().RootSchema()
 	simrt.Configure(simrt.MapCanon, 0, nil)
+	w.schema = w.p.FreshSchema()
+	w.sch = w.schema.RootSchema()
 	r := simrt.NewRng(simrt.Mix(c.Seed, 1))
 	tp := c.TreeP
 	tp.NoNestedOrdered = true
@@ -458,7 +463,7 @@ func (w *c21World) runOp(op Op, root ygot.GoStruct) string {
 				return
 			}
 			req := w.reqs[pick(len(w.reqs))]
-			schema := &ytypes.Schema{Root: root, SchemaTree: w.p.Schema().SchemaTree, Unmarshal: w.p.Unmarshal}
+			schema := &ytypes.Schema{Root: root, SchemaTree: w.schema.SchemaTree, Unmarshal: w.p.Unmarshal}
 			out = normErr(ytypes.UnmarshalSetRequest(schema, req))
 		default:
 			panic("C21: unknown op " + op.K)
@@ -527,6 +532,7 @@ func (p *c21Prop) exec(c *c21Case) (*Violation, *Result) {
 	ctxSeed := func(i int) uint64 { return simrt.Mix(c.Seed, uint64(100+i)) }
 	// phase 1: every task alone, on its own copy of its private root
 	solo := make([]c21TaskResult, k)
+	ws.p.SetGlobalTree(ws.schema.SchemaTree)
 	for i := range c.Tasks {
 		var root ygot.GoStruct
 		if ws.isWriter(c.Tasks[i]) {
@@ -535,7 +541,8 @@ func (p *c21Prop) exec(c *c21Case) (*Violation, *Result) {
 		ctx := simrt.NewCtx(i, fmt.Sprintf("solo-%d", i), simrt.MapRandom, ctxSeed(i), nil)
 		simrt.With(ctx, func() { ws.runTask(c.Tasks[i], root, &solo[i]) })
 	}
-	// phase 2: all tasks interleaved
+	// phase 2: all tasks interleaved, on a schema and messages nobody has touched yet
+	w.p.SetGlobalTree(w.schema.SchemaTree)
 	ytypes.VerifEvictRegexpCache()
 	conc := make([]c21TaskResult, k)
 	ctxs := make([]*simrt.Ctx, k)
